@@ -318,4 +318,18 @@ CHECKS = {
         note="Known finding: the deferral unit is the whole expression, so a "
              "later invalid pipe alternative is raised although not "
              "reached."),
+    "C20": dict(
+        technique="path enumeration of ElementProgram.__init__ (routing: the "
+                  "markup classifier is not on the text-mode path), abstract "
+                  "interpretation of visit_text, constant/option plumbing",
+        text="Decides, for every source string, that in text mode each token "
+             "is delivered as ('text', token) and the markup classifier is "
+             "never constructed on that path; that the text tokenizer yields "
+             "the whole source as one token; that escaping is off exactly in "
+             "text mode and visit_text then uses an empty escape set; that "
+             "text without ${ only has $$ un-doubled; that the file-based "
+             "text template encodes the result with the template's "
+             "encoding.",
+        note="The ${...} delimiting itself is C06; CR/CRLF rewriting "
+             "applies to text templates too (by design)."),
 }
